@@ -583,6 +583,7 @@ async fn abandoned_gadget(handle: &SyncHandle, keys: &Keys) -> anyhow::Result<Ga
     // the caller of the write that is waiting for room in the channel gives up as well
     w2.abort();
     let _ = w2.await;
+    tokio::time::sleep(Duration::from_millis(60)).await;
     // now the subscriber reads
     let drainer = tokio::spawn(async move {
         let mut n = 0usize;
